@@ -27,6 +27,8 @@
 #include <unistd.h>
 #include <gmp.h>
 
+extern "C" void __sanitizer_print_stack_trace(void);
+
 namespace fz
 {
 
@@ -226,6 +228,7 @@ inline uint64_t fnv(const uint8_t *d, size_t n, uint64_t h = 1469598103934665603
 [[noreturn]] inline void resource_exit(const char *why)
 {
     fprintf(stderr, "\nVERIF-RESOURCE-EXIT: %s\n", why);
+    __sanitizer_print_stack_trace();
     fflush(stderr);
     stats().exclude("resource_exit");
     stats().flush();
